@@ -5,6 +5,7 @@ import (
 	"reflect"
 	"strings"
 	"testing"
+	"time"
 
 	mod "github.com/craterdog/go-collection-framework/v4"
 	col "github.com/craterdog/go-collection-framework/v4/collection"
@@ -305,6 +306,9 @@ func TestC11(t *testing.T) {
 	}, Exec: execAssocSeq, NoJournal: true}, 0)
 	core.Rapid(r, core.Check[kinCase]{Name: "sets-of-kin", Gen: genKin, Exec: execKin}, r.N(1500, 15000))
 	core.Rapid(r, core.Check[longDocCase]{Name: "long-documents", Gen: genLongDoc(false), Exec: execLongDoc}, r.N(60, 900))
+	core.DFS(r, core.Check[longParserCase]{Name: "long-lived-parser", Gen: func(s core.Source) longParserCase {
+		return longParserCase{Docs: r.N(12000, 60000), Notation: s.Choose(2, "notation") == 1}
+	}, Exec: execLongParser("C11"), NoJournal: true, HangLimit: 600 * time.Second}, 0)
 	deepDepths := []int{2, 8, 9, 16, 17, 18, 19, 40, r.N(100, 300)}
 	core.DFS(r, core.Check[deepDocCase]{Name: "deep-sentences", Gen: func(s core.Source) deepDocCase {
 		return deepDocCase{Context: core.Pick(s, []string{"Array", "List", "Set", "Stack", "Queue", "Catalog", "Map"}, "context"), Depth: deepDepths[s.Choose(len(deepDepths), "depth")]}
